@@ -1,6 +1,6 @@
 """C09 — rich annotations mirror element nesting exactly (annotation stack discipline)."""
 from ..facts import AnchorMissing, callee_def, op_place, op_const, is_bare
-from ..util import (storage_roots, SUBR, TEXTR, RTRAIT, ends, is_callee, field_accesses, site, fn_key,
+from ..util import (edges_where, unreachable_without_edges, storage_roots, SUBR, TEXTR, RTRAIT, ends, is_callee, field_accesses, site, fn_key,
                     consumer_of_ref, callee_method, dominated_by_true_edge, require,
                     closure_bodies_created_in, transitive_closures, edge_is_true, src_field,
                     deep_atoms, has_call, has_field, direct_place)
@@ -49,6 +49,11 @@ def check(ctx):
              "tagged with spacetag, so a stale one would put an inline element's annotations on the padding")
     ctx.rule("C09-L", "annotating node kinds (Em, Strong, Strikeout, Code, Link, Img, Sup) are built only by the element dispatch of "
              "process_dom_node")
+    ctx.rule("C09-M", "an inline markup element always builds its annotating node: a reducer of the element dispatch that builds an "
+             "Em, Strong, Strikeout, Code or Sup node builds no other kind, and whether it is installed depends on nothing but the "
+             "node's kind, its `display` and its name")
+    ctx.rule("C09-N", "text is merged into an existing piece only under an equality test of the two tag vectors: every write to the "
+             "string of a TaggedString that sits in a line is governed by the true edge of `tag == tag`")
     ctx.rule("C09-K", "the Link annotation carries the link's target as given: start_link hands its argument on unchanged")
     ctx.rule("C09-J", "an element's computed style travels on the node built for it: every reducer of the DOM walk that captured the "
              "element's ComputedStyle returns only nodes built by RenderNode::new_styled with it")
@@ -56,7 +61,8 @@ def check(ctx):
              "push_ws(n, tag) with the caller's tag and never grows an existing piece")
     for rid, fn in (("C09-A", rule_a), ("C09-B", rule_b), ("C09-C", rule_c), ("C09-D", rule_d),
                     ("C09-E", rule_e), ("C09-F", rule_f), ("C09-F", rule_f2), ("C09-C", rule_h), ("C09-G", rule_g),
-                    ("C09-H", rule_ws_tag), ("C09-I", rule_pad_tag), ("C09-J", rule_styled_nodes), ("C09-K", rule_link_target_verbatim), ("C09-L", rule_annotating_nodes)):
+                    ("C09-H", rule_ws_tag), ("C09-I", rule_pad_tag), ("C09-J", rule_styled_nodes), ("C09-K", rule_link_target_verbatim), ("C09-L", rule_annotating_nodes),
+                    ("C09-M", rule_markup_unconditional), ("C09-N", rule_merge_equal_tags)):
         ctx.guard(rid, fn)
 
 
@@ -920,3 +926,76 @@ def rule_g(ctx):
                           "the %s arm pushes %d sub-renderer(s) after applying the node's style but pops %d before unwinding it: the "
                           "style would be unwound on a different renderer than it was applied to" % (vn, pushes, len(pops)))
     ctx.floor("C09-G", "unwind sites checked against the stack level of apply", n, 25)
+
+
+INLINE_MARKUP = ("Em", "Strong", "Strikeout", "Code", "Sup")
+
+
+def rule_markup_unconditional(ctx):
+    """`<code>` means Code wherever it stands: the reducers of the element dispatch that build an inline-markup node build
+    that kind only (no `if fenced { Container } else { Code }`), and the arm that installs them is selected by the node's
+    kind, the element's `display` and name tests alone (no look at the parent, at attributes, at the context)."""
+    F = ctx.facts
+    pdn = F.one("process_dom_node")
+    n = 0
+    for (cbb, i, cb, ops, fields) in closure_bodies_created_in(F, pdn):
+        kinds = set()
+        for body in [cb] + [c for (_x, c) in transitive_closures(F, cb)]:
+            for x in body.reachable():
+                for st in body.stmts(x):
+                    rv = st.get("rv") or {}
+                    if rv.get("agg") == "adt" and ends(rv.get("adt"), "RenderNodeInfo"):
+                        kinds.add(rv["variant"])
+        mk = kinds & set(INLINE_MARKUP)
+        if not mk:
+            continue
+        n += 1
+        k = sorted(mk)[0]
+        ctx.check(len(kinds) == 1, "C09-M", "markup-reducer:%s:one-kind" % k, cb.span, cb.id,
+                  "the reducer of an inline markup element builds %s: under some condition the element's text loses (or "
+                  "gains) the annotation although the element encloses it" % sorted(kinds))
+        bad = []
+        for (a, s2) in sorted(pdn.cdeps_transitive(cbb)):
+            _neg, src = pdn.switch_source(a)
+            if src[0] == "discr":
+                pl = src[1]
+                at = pdn.atoms({"c": pl})
+                if "NodeData" in (pl.get("ty") or "") or has_field(at, "ComputedStyle", "display"):
+                    continue
+            if src[0] == "bin" and src[1]["bin"] in ("Eq", "Ne"):
+                at = pdn.atoms(src[1]["a"]) | pdn.atoms(src[1]["b"])
+                if has_call(at, "QualName::expanded") and any(x[0] == "int" for x in at):
+                    continue
+            bad.append((a, src[0]))
+        ctx.check(not bad, "C09-M", "markup-arm:%s:selected-by-name-only" % k, pdn.term(cbb)["span"], pdn.id,
+                  "the arm that builds %s nodes is reached under a condition that is not a test of the node kind, of `display` or "
+                  "of the element name (%s)" % (k, ", ".join("bb%d:%s" % b for b in bad[:4])))
+    ctx.floor("C09-M", "inline-markup reducers in the element dispatch", n, 5)
+
+
+STRING_WRITES = ("push", "push_str", "insert", "insert_str", "extend", "add_assign", "truncate", "clear", "pop", "remove")
+
+
+def rule_merge_equal_tags(ctx):
+    """A character joins an existing piece only if that piece has exactly the tag the character is to carry."""
+    F = ctx.facts
+    n = 0
+    for b in F.bodies.values():
+        if not b.id.startswith("render::text_renderer::") or (b.raw.get("from_expansion") and b.kind != "Closure"):
+            continue
+        for bb, t in b.calls(lambda cd, t: callee_method(t) in STRING_WRITES and "String" in (cd or "")):
+            pl = direct_place(b, t["args"][0])
+            fs = [e for e in (pl["p"] if pl else []) if isinstance(e, dict) and "f" in e]
+            if not fs or not (fs[-1].get("n") == "s" and ends(fs[-1].get("o"), "TaggedString")):
+                continue
+            if not any(e == "*" for e in pl["p"]):
+                continue  # a TaggedString owned by this function (being built), not one reached through a reference
+            n += 1
+            cut = edges_where(b, lambda truth, src, a, s2: truth is True and src and src[0] == "call" and
+                              callee_method(src[1]) == "eq" and
+                              any(has_field(b.atoms(x), "TaggedString", "tag") for x in src[1]["args"]))
+            ok = unreachable_without_edges(b, bb, cut)  # every path to the write takes the true edge of a tag comparison
+            ctx.check(ok, "C09-N", "merge@%s:%s" % (fn_key(b), callee_method(t)), t["span"], b.id,
+                      "text is written into a piece that is already in a line without a dominating `piece.tag == tag` test: it takes "
+                      "over that piece's annotations instead of the ones it was given")
+    ctx.floor("C09-N", "writes into an existing tagged string", n, 3)
